@@ -17,10 +17,10 @@ func (p *Prog) problem(format string, a ...interface{}) {
 func (p *Prog) Problem(format string, a ...interface{}) { p.problem(format, a...) }
 
 func full(pkg string) string {
-	if strings.Contains(pkg, ".") && !strings.HasPrefix(pkg, "pkg/") && !strings.HasPrefix(pkg, "cmd/") {
-		return pkg
+	if strings.HasPrefix(pkg, "pkg/") || strings.HasPrefix(pkg, "cmd/") {
+		return ModPath + "/" + pkg
 	}
-	return ModPath + "/" + pkg
+	return pkg
 }
 
 // TypesPkg returns the types.Package for a kvass-relative ("pkg/shard") or absolute import path.
